@@ -534,6 +534,41 @@ func genCodecSrc(repo string) (string, error) {
 		fmt.Fprintf(&b, "From Coq Require Import NArith List.\nDefinition tars_resp_types : list N := [%s]%%N.\nDefinition tars_req_types : list N := [%s]%%N.\n", strings.Join(resp, ";"), strings.Join(req, ";"))
 	}
 
+	// 9. protocol/api.go SelectStreamFactoryProtocol: first accepting factory wins, else EAGAIN iff some matcher said EAGAIN,
+	//    else FAILED - the shape modelled by Model/Matchers.v select (c07_select_prefix_stable, c07_select_order_independent)
+	{
+		fset, f, err := ParseGoFile(repo, "pkg/protocol/api.go")
+		if err != nil {
+			return "", err
+		}
+		shape := false
+		if fd := FindFunc(f, "", "SelectStreamFactoryProtocol"); fd != nil {
+			n := len(fd.Body.List)
+			loops := 0
+			ast.Inspect(fd.Body, func(nd ast.Node) bool {
+				if rs, is := nd.(*ast.RangeStmt); is {
+					b := src(fset, rs.Body)
+					if strings.Contains(b, "err = factory.ProtocolMatch(ctx, prot, peek) if err == nil { return p, nil } if err == EAGAIN { again = true }") {
+						loops++
+					}
+				}
+				return true
+			})
+			tail := ""
+			if n >= 2 {
+				tail = src(fset, fd.Body.List[n-2]) + " " + src(fset, fd.Body.List[n-1])
+			}
+			if loops == 2 && tail == `if again { return "", EAGAIN } return "", FAILED` {
+				shape = true
+			} else {
+				unknown("protocol/api.go SelectStreamFactoryProtocol", fmt.Sprintf("loops=%d tail=%s", loops, tail))
+			}
+		} else {
+			unknown("protocol/api.go", "SelectStreamFactoryProtocol missing")
+		}
+		sw["select_shape_ok"] = shape
+	}
+
 	names := make([]string, 0, len(sw))
 	for k := range sw {
 		names = append(names, k)
